@@ -662,7 +662,7 @@ func TestVerifC13Malformed(t *testing.T) {
 			}
 			return c
 		},
-		Check: vfC13Check,
+		Check:    vfC13Check,
 		Classify: func(c vfC13Case) ([]string, bool) { return []string{c.Form + ":" + c.Mal}, true },
 	})
 }
